@@ -47,7 +47,9 @@ def case_abort(n, kind):
         eng.assume(z3.And(1 <= abort_board, abort_board <= n))
         state = dict(board=0, aborted=None)
         import builtins
-        exc = lambda: getattr(builtins, kind)('injected abort')
+        # the text is what the real phases raise with: it quotes the offending message (double quotes, a backslash)
+        MSG = 'Parse exception. Content "Nord \\ passes" does not match the pattern.'
+        exc = lambda: getattr(builtins, kind)(MSG)
 
         def deal(e, a, k):
             state['board'] += 1
@@ -83,7 +85,7 @@ def case_abort(n, kind):
         C12.install_codecs(eng)
 
         def cex(m):
-            return {'kind': 'abort', 'n': n, 'exception': kind, 'abort_board': hx.mval(m, abort_board),
+            return {'kind': 'abort', 'n': n, 'exception': kind, 'message': MSG, 'abort_board': hx.mval(m, abort_board),
                     'abort_in_play': hx.mval(m, abort_in_play), 'aborted': state['aborted'],
                     'passed_out': [bool(hx.mval(m, z3.Bool(f'board{b}_passed_out'))) for b in range(1, n + 1)]}
         try:
@@ -108,7 +110,7 @@ def case_abort(n, kind):
             chk.append(('the output file is closed', f.attrs['closed']))
             try:
                 doc = jsonio.load_chunks(eng, f.attrs['chunks'])
-                ok = isinstance(doc, dict) and list(doc) == ['logs'] and isinstance(doc['logs'], list)
+                ok = isinstance(doc, dict) and isinstance(doc.get('logs'), list)      # further top-level members are not excluded by the property
                 chk.append(('the file is one complete JSON document {"logs": [...]}', ok))
                 if ok:
                     chk.append((f'it holds exactly the boards finished before the abort ({expect})', len(doc['logs']) == expect))
